@@ -33,7 +33,8 @@ Definition E_NOCONN : N := 1.
 Definition E_VALPENDING : N := 2.
 Definition E_DIALFAIL : N := 3.
 
-Inductive uev := UValidate (p : peer) | UOpened (p : peer) (d : dir) | UClosed (p : peer) | UFail (p : peer) (e : N).
+Inductive uev := UValidate (p : peer) | UOpened (p : peer) (d : dir) | UClosed (p : peer) | UFail (p : peer) (e : N)
+               | UNotif (p : peer).   (* NotificationReceived *)
 Inductive call := CDial (p : peer) | COpen (p : peer) (s : sid) | CForce (p : peer).
 
 (* A Connection task at an event boundary: running, or inside close_connection waiting for a
@@ -374,13 +375,15 @@ Inductive op :=
 | OpenFail (p : peer) | DialFail (p : peer) | HsIn (p : peer) (okb : bool) | HsOut (p : peer) (okb : bool)
 | Validate (p : peer) (accept : bool) | Timer (p : peer) | CmdOpen (p : peer) | CmdClose (p : peer)
 | CmdForce (p : peer) | TaskDie (p : peer) (gated : bool) | Release (p : peer) | KillChan (p : peer)
-| Gate (p : peer).
+| Gate (p : peer)
+| Notify (p : peer)                      (* the remote sends a notification on the open stream *)
+| NotifyDie (p : peer) (gated : bool).   (* ... and then closes the stream *)
 
 Definition op_peer (o : op) : peer :=
   match o with
   | Established p | ConnClosed p | SubIn p | SubOut p | OpenFail p | DialFail p | HsIn p _
   | HsOut p _ | Validate p _ | Timer p | CmdOpen p | CmdClose p | CmdForce p | TaskDie p _
-  | Release p | KillChan p | Gate p => p
+  | Release p | KillChan p | Gate p | Notify p | NotifyDie p _ => p
   end.
 
 (* oldest unanswered open_substream request of the peer *)
@@ -408,6 +411,25 @@ Fixpoint finish_tasks (p : peer) (l : list task) : list task * list uev * N :=
 
 Definition run_shutdowns (s : st) (p : peer) (n : N) : st :=
   if n =? 0 then s else on_shutdown s p.
+
+(* the remote closes the open stream of p (inbound substream ends): the newest Connection task of
+   the peer, if still running, closes by itself and notifies the protocol *)
+Definition task_die_op (s : st) (p : peer) (g : bool) : res :=
+      match lastt s p with
+      | Some k =>
+          match find_task k (tasks s) with
+          | Some t =>
+              match t_closing t with
+              | Some _ => ok s
+              | None =>
+                  if g || t_gated t
+                  then ok (set_tasks s (map_task k (fun t => mkTask (t_id t) (t_peer t) (Some true) true) (tasks s)))
+                  else Some (on_shutdown (set_tasks s (remove_task k (tasks s))) p, [UClosed p], [])
+              end
+          | None => ok s
+          end
+      | None => ok s
+      end.
 
 Definition main_handler (c : cfg) (s : st) (o : op) : res :=
   match o with
@@ -438,22 +460,9 @@ Definition main_handler (c : cfg) (s : st) (o : op) : res :=
   | CmdOpen p => if hopen s p then ok s else on_open c s p
   | CmdClose p => if hopen s p then on_close s p else ok s
   | CmdForce p => Some (s, [], svc_force s p)
-  | TaskDie p g =>
-      match lastt s p with
-      | Some k =>
-          match find_task k (tasks s) with
-          | Some t =>
-              match t_closing t with
-              | Some _ => ok s
-              | None =>
-                  if g || t_gated t
-                  then ok (set_tasks s (map_task k (fun t => mkTask (t_id t) (t_peer t) (Some true) true) (tasks s)))
-                  else Some (on_shutdown (set_tasks s (remove_task k (tasks s))) p, [UClosed p], [])
-              end
-          | None => ok s
-          end
-      | None => ok s
-      end
+  | TaskDie p g => task_die_op s p g
+  | Notify p => ok s
+  | NotifyDie p g => task_die_op s p g
   | Gate p =>
       match lastt s p with
       | Some k => ok (set_tasks s (map_task k (fun t => mkTask (t_id t) (t_peer t) (t_closing t) true) (tasks s)))
@@ -496,6 +505,7 @@ Fixpoint drain (s : st) (evs : list uev) : st * list peer * list N :=
           if hval s p then let '(s1, l, ks) := drain s t in (s1, p :: l, ks)
           else drain (set_hval s p true) t
       | UFail _ _ => drain s t
+      | UNotif _ => drain s t
       end
   end.
 
@@ -533,16 +543,32 @@ Fixpoint kill_tasks (s : st) (ks : list N) : st * list uev :=
   | k :: t => let '(s1, e1) := task_dies s k in let '(s2, e2) := kill_tasks s1 t in (s2, e1 ++ e2)
   end.
 
+(* notifications the Connection task of the peer forwards into the handle's notification channel
+   while this event is handled: the newest task of the peer must still be running *)
+Definition notifs_of (s : st) (o : op) : list peer :=
+  match o with
+  | Notify p | NotifyDie p _ =>
+      match lastt s p with
+      | Some k => if running s k then [p] else []
+      | None => []
+      end
+  | _ => []
+  end.
+
+(* The handle polls its event channel before its notification channel: the lifecycle events that are
+   queued are seen first, then the queued notifications, which are delivered only for peers that are
+   in the handle's `peers` map at that moment. *)
 Definition step (c : cfg) (s : st) (o : op) : res :=
   match main_handler c s o with
   | None => None
   | Some (s1, ev, calls) =>
       let '(s2, dropped, killed) := drain s1 ev in
+      let nf := map UNotif (filter (hopen s2) (notifs_of s o)) in
       match dropped_validations s2 dropped with
       | Some (s3, ev3, calls3) =>
           let '(s4, ev4) := kill_tasks s3 killed in
           let '(s5, _, _) := drain s4 (ev3 ++ ev4) in
-          Some (s5, ev ++ ev3 ++ ev4, calls ++ calls3)
+          Some (s5, ev ++ nf ++ ev3 ++ ev4, calls ++ calls3)
       | None => None
       end
   end.
